@@ -146,6 +146,7 @@ func init() {
 			reuseUnit(reuseMash),
 			{Name: "motifs", TShards: 4, Run: c17Motifs},
 			{Name: "fromjaccard", Run: c17FromJaccard},
+			{Name: "variants", TShards: 4, Run: c17Variants},
 		},
 	})
 }
@@ -727,6 +728,66 @@ func c17Seed(c *Ctx) {
 				return
 			}
 			k.Nontrivial(seq[:32], []byte(fmt.Sprint(kk, size, i)))
+		})
+	}
+}
+
+// c17Variants: FAMILIES of near-identical sequences in one call — a sequence
+// followed by a copy with one substituted base (at EVERY position in turn), by
+// a copy in another case, by its reverse complement, by a copy one base
+// shorter/longer — as variant calls, amplicons and resequenced strains are.
+// Anything that recognises "the same sequence again" to save work must do so
+// exactly.
+func c17Variants(c *Ctx) {
+	n := c.N(120, 3000)
+	for i := 0; i < n; i++ {
+		c.Case(int64(i), func(k *K) {
+			r := k.Rand()
+			h := &hashOracle{memo: map[string]uint64{}}
+			l := pick(r, []int{8, 9, 15, 16, 17, 24, 31, 32, 33, 40, 64, 65, 100})
+			kk := 1 + r.IntN(min(l, 12))
+			size := pick(r, []int{2, 50, 1000})
+			base := randSeq(r, []byte("ACGT"), l)
+			if i%3 == 1 {
+				base = randSeq(r, []byte("ACGTacgtN"), l)
+			}
+			k.Input("n", size)
+			k.Input("k", kk)
+			for pos := -3; pos < l; pos++ {
+				v := append([]byte{}, base...)
+				switch pos {
+				case -3:
+					v = bytes.ToLower(v)
+				case -2:
+					v = v[:l-1]
+				case -1:
+					v = append(v, 'G')
+				default:
+					v[pos] = "ACGT"[(bytes.IndexByte([]byte("ACGT"), bytes.ToUpper(v[pos : pos+1])[0])+1+r.IntN(3))&3]
+				}
+				seqs := [][]byte{base, v}
+				if r.IntN(3) == 0 {
+					seqs = [][]byte{base, base, v, base}
+				}
+				want := refSketch(h, size, kk, seqs)
+				got := append([]uint64{}, mash.Sequences(size, kk, cloneSeqs(seqs)...).View()...)
+				if !sameU64(got, want) {
+					k.Input("seqs", seqsString(seqs))
+					k.Failf("sketch", "Sequences(%d,%d) of a sequence of %d bases and a copy that differs at position %d = %v, brute-force bottom-%d of the canonical k-mers of all of them is %v", size, kk, l, pos, got, size, want)
+					return
+				}
+				m := mash.Sequences(size, kk)
+				mash.Add(m, kk, cloneSeqs(seqs)...)
+				if !sameU64(m.View(), want) {
+					k.Input("seqs", seqsString(seqs))
+					k.Failf("sketch-variant", "New(%d,%d).Add of a sequence of %d bases and a copy that differs at position %d = %v, want %v", size, kk, l, pos, m.View(), want)
+					return
+				}
+				k.Count("sketches_checked", 2)
+				k.Count("variant_families", 1)
+				k.Evals(2)
+			}
+			k.Nontrivial(base, []byte{byte(kk), byte(size)})
 		})
 	}
 }
